@@ -288,8 +288,7 @@ Definition step_b (s : state) (t : nat) : option (state * bool) :=
           else Some (step_ready s t T)
       | WokeGet =>
           match prog T with
-          | [] => None
-          | o :: p =>
+          | (IRecv | IRecvLoop | IIter _) as o :: p =>
               if mc T then
                 (* except: getter.cancel() (no-op); _getters.remove -> ValueError, pass;
                    if not empty() and not getter.cancelled(): _wakeup_next(_getters); raise *)
@@ -297,14 +296,14 @@ Definition step_b (s : state) (t : nat) : option (state * bool) :=
                 let s2 := if empty s1 then s1 else wake_getters s1 in
                 Some (finally_cancelled s2 t T, true)
               else Some (do_get s t T o p)
+          | _ => None      (* only a receive operation can be inside get() *)
           end
       | CancGet =>
           (* except: _getters.remove(getter) if still there; getter.cancelled() so no hand-over; raise *)
           Some (finally_cancelled (with_getters s (remove1 t (getters s)) (tasks s)) t T, true)
       | WokePut =>
           match prog T with
-          | [] => None
-          | o :: p =>
+          | (IPut | IPutFlush) as o :: p =>
               if mc T then
                 let s1 := with_putters s (remove1 t (putters s)) (tasks s) in
                 let s2 := if full s1 then s1 else wake_putters s1 in
@@ -314,6 +313,7 @@ Definition step_b (s : state) (t : nat) : option (state * bool) :=
                 | IPutFlush => Some (do_put s t T Flush IPutFlush p)
                 | _ => Some (do_put s t T (next_item t T) IPut p)
                 end
+          | _ => None      (* only a put can be inside put() *)
           end
       | CancPut =>
           Some (set_task (with_putters s (remove1 t (putters s)) (tasks s)) t (finished T (cancel_out T)), true)
